@@ -623,4 +623,50 @@ def b_argsweep(c):
     return f, args[n], {}
 
 
-BUILDERS = {"argsweep": b_argsweep, "kink": b_kink, "linalg": b_linalg, "fft": b_fft, "index": b_index, "join": b_join, "contract": b_contract, "rearr": b_rearr, "binary": b_binary, "where": b_where, "reduce": b_reduce, "cum": b_cum, "unary": b_unary}
+# ----------------------------------------------------------------------------- adjoint helper primitives called directly
+def b_helper(c):
+    import autograd.numpy.numpy_vjps as V
+    import autograd.numpy.fft as F
+    prim, n = c["prim"], c["argnum"]
+    sa, sb = tuple(c["s"]), tuple(c["s2"])
+    if prim == "truncate_pad":
+        x = data(sa)
+        shape = tuple(c["tp"])
+        if len(shape) != len(sa):
+            raise Skip("rank mismatch")
+        return (lambda v: F.truncate_pad(v, shape)), x, {}
+    if prim == "make_diagonal":
+        x = data(sa)
+        a1, a2 = c["tp"]
+        return (lambda v: np.make_diagonal(v, c["ia"], a1, a2)), x, {}
+    A, B = data(sa, 0.3, 2.7, 0), data(sb, 0.4, 1.9, 5)
+    if prim.startswith("dot_adjoint"):
+        try:
+            G = onp.dot(A, B)
+        except Exception:
+            raise Skip("dot undefined")
+        G = data(onp.shape(G), 0.2, 1.2, 9) if onp.ndim(G) else 0.7
+        metaA, metaB = np.metadata(A), np.metadata(B)
+        if prim == "dot_adjoint_0":      # (B, G) -> adjoint of A |-> dot(A, B)
+            fn, args = (lambda b, g: V.dot_adjoint_0(b, g, metaA, metaB)), [B, G]
+        else:
+            fn, args = (lambda a, g: V.dot_adjoint_1(a, g, metaA, metaB)), [A, G]
+    else:
+        axes = c["ia"]
+        try:
+            G = onp.tensordot(A, B, axes)
+        except Exception:
+            raise Skip("tensordot undefined")
+        G = data(onp.shape(G), 0.2, 1.2, 9) if onp.ndim(G) else 0.7
+        if prim == "tensordot_adjoint_0":
+            fn, args = (lambda b, g: V.tensordot_adjoint_0(b, g, axes, onp.ndim(A), onp.ndim(B))), [B, G]
+        else:
+            fn, args = (lambda a, g: V.tensordot_adjoint_1(a, g, axes, onp.ndim(A), onp.ndim(B))), [A, G]
+    x = args[n]
+    if onp.ndim(x) == 0:
+        x = onp.array(x)
+    f = (lambda v: fn(v, args[1])) if n == 0 else (lambda v: fn(args[0], v))
+    return f, x, {}
+
+
+BUILDERS = {"helper": b_helper, "argsweep": b_argsweep, "kink": b_kink, "linalg": b_linalg, "fft": b_fft, "index": b_index, "join": b_join, "contract": b_contract, "rearr": b_rearr, "binary": b_binary, "where": b_where, "reduce": b_reduce, "cum": b_cum, "unary": b_unary}
